@@ -199,7 +199,7 @@ def random_history(rng, n_events=None):
         elif x < 0.82:
             rec.merge(s, t)
         elif x < 0.88 and s != t:
-            rec.saveload(s, t)
+            rec.saveload(s, t, shm=rng.random() < 0.3)
         else:
             rec.query(s)
     for s in range(NS):
